@@ -684,6 +684,10 @@ func (self *LocalJobManager) Enqueue(shellCmd string, argv []string,
 					// failing.  Because this is local mode, we don't need to
 					// worry about nfs data races.
 					metadata.WriteErrorString(err.Error())
+				} else if err2 == nil {
+					// The job wrote _errors itself, but may have died before
+					// the journal entry which makes mrp notice the file.
+					metadata.cache(Errors, metadata.uniquifier)
 				}
 			} else {
 				util.LogInfo("jobmngr",
